@@ -388,7 +388,8 @@ class Integer(Element):
     @unconvert.register
     def _unconvert_int(self, value: int) -> str:
         value = self.enforce_length(value)
-        return str(value)
+        # bool is an int subclass; str(True) isn't an OFX integer
+        return str(int(value))
 
 
 #  N.B. "scale" here means "decimal places"
